@@ -147,6 +147,11 @@ Definition run_conform (cmd : string) (args : list sexp) : option sexp :=
                   match to_sty t with Some st => e_bool (tc_value_st v st) | None => SY "not_representable" end
               | _, _ => bad_input
               end
+          | [SY "schema_wf"; s] =>
+              match d_schema s with
+              | Some sch => e_bool (schema_wf sch)
+              | None => bad_input
+              end
           | SY ep :: s :: rest =>
               match d_schema s with
               | Some sch => run_conform_ep ep sch rest
